@@ -65,6 +65,9 @@ func (c *sortSliceChecker) VisitExpr(expr ast.Expr) {
 	if !ok {
 		return
 	}
+	if len(ret.Results) != 1 {
+		return // Bare return with a named result
+	}
 	cmp := astcast.ToBinaryExpr(astutil.Unparen(ret.Results[0]))
 	if !typep.SideEffectFree(c.ctx.TypesInfo, cmp) {
 		return
